@@ -47,7 +47,7 @@ CLAIM = dict(
 # ---------------------------------------------------------------------------
 # deterministic data, objects, operations (JSON-able descriptions)
 
-SHAPES = {0: (8, 8), 1: (8, 8), 2: (6, 10), 3: (8, 8, 3), 4: (8, 8)}
+SHAPES = {0: (8, 8), 1: (8, 8), 2: (6, 10), 3: (8, 8, 3), 4: (8, 8), 5: (4, 4, 4)}
 
 
 def data(k):
@@ -73,12 +73,21 @@ def coef_value(c):
     return coef_array(int(c[1:])) if isinstance(c, str) else c
 
 
+def variant_coef(c):
+    """another coefficient of the same kind (scalar stays scalar, array stays array)"""
+    return "a2" if isinstance(c, str) else 3.0 * c + 1.0
+
+
 class Objs:
-    def __init__(self, d, with_ws=False):
-        self.jacs = [d.Jacobi(maxiter=o["maxiter"], tol=o["tol"], dim=o["dim"], mass_coeff=coef_value(o["mass"]),
-                              diffusion_coeff=coef_value(o["diff"])) for o in OBJECTS["jacs"]]
-        self.mgs = [d.MG(depth=o["depth"], smoother_iterations=o["sm"], maxiter=o["maxiter"], dim=o["dim"],
-                         mass_coeff=coef_value(o["mass"]), diffusion_coeff=coef_value(o["diff"])) for o in OBJECTS["mgs"]]
+    def __init__(self, d, with_ws=False, variant=False):
+        """variant: the solver objects are constructed with OTHER values of the parameters that every regulariser overwrites
+        (dim, mass_coeff, diffusion_coeff); maxiter / tol / depth / smoother_iterations and the kind of coefficient are kept"""
+        vc = variant_coef if variant else (lambda c: c)
+        vd = (lambda n: 5 - n) if variant else (lambda n: n)
+        self.jacs = [d.Jacobi(maxiter=o["maxiter"], tol=o["tol"], dim=vd(o["dim"]), mass_coeff=coef_value(vc(o["mass"])),
+                              diffusion_coeff=coef_value(vc(o["diff"]))) for o in OBJECTS["jacs"]]
+        self.mgs = [d.MG(depth=o["depth"], smoother_iterations=o["sm"], maxiter=o["maxiter"], dim=vd(o["dim"]),
+                         mass_coeff=coef_value(vc(o["mass"])), diffusion_coeff=coef_value(vc(o["diff"]))) for o in OBJECTS["mgs"]]
         self.aas = [d.AndersonAcceleration(dimension=None, depth=o["depth"], restart=o["restart"]) for o in OBJECTS["aas"]]
         self._d = d
         self._ws = {}
@@ -124,7 +133,7 @@ def execute(d, objs, op):
     if k in ("h1", "sb") and op["solver"] != "d":
         kw["solver"] = objs.jacs[op["solver"][1]] if op["solver"][0] == "j" else objs.mgs[op["solver"][1]]
     if k == "h1":
-        return call(d.H1_regularization, data(op["data"]).copy(), mu=coef_value(op["mu"]), omega=coef_value(op["omega"]), dim=2, **kw)
+        return call(d.H1_regularization, data(op["data"]).copy(), mu=coef_value(op["mu"]), omega=coef_value(op["omega"]), dim=op.get("dim", 2), **kw)
     if k == "sb":
         return call(d.split_bregman_tvd, data(op["data"]).copy(), mu=coef_value(op["mu"]), omega=coef_value(op["omega"]), ell=coef_value(op.get("ell")), dim=2,
                     max_num_iter=op["iters"], isotropic=op.get("isotropic", False), **kw)
@@ -157,7 +166,7 @@ def setting_part(op):
         return [op]
     if k in ("h1", "sb") and op["solver"] != "d":
         diff = op["mu"] if k == "h1" else (op["ell"] if op.get("ell") is not None else 2 * op["mu"])
-        return [{"op": "ju" if op["solver"][0] == "j" else "mu", "i": op["solver"][1], "dim": 2, "mass": op["omega"], "diff": diff}]
+        return [{"op": "ju" if op["solver"][0] == "j" else "mu", "i": op["solver"][1], "dim": op.get("dim", 2), "mass": op["omega"], "diff": diff}]
     return []
 
 
@@ -171,14 +180,17 @@ def digest(r):
 
 
 def needs_ws(ops):
-    return any(o["op"] == "di" for o in ops)
+    return any(o["op"] == "di" for o in (ops["ops"] if isinstance(ops, dict) else ops))
 
 
 def fresh_result(ops):
     """executed inside a fresh process: settings + the call, on freshly built objects; digest of the last result"""
     import darsia as d
 
-    objs = Objs(d, with_ws=needs_ws(ops))
+    variant = False
+    if isinstance(ops, dict):
+        variant, ops = bool(ops.get("variant")), ops["ops"]
+    objs = Objs(d, with_ws=needs_ws(ops), variant=variant)
     r = None
     for op in ops:
         r = execute(d, objs, op)
@@ -257,8 +269,9 @@ def op_tok(op, n):
         return f"mc {op['i']} {op['data']}"
     sref = "d" if op.get("solver", "d") == "d" else f"{op['solver'][0]} {op['solver'][1]}"
     if k == "h1":
-        ch = int(np.prod(SHAPES[op["data"]][2:])) if len(SHAPES[op["data"]]) > 2 else 1
-        return f"h1 {sref} {coef_tok(op['mu'])} {coef_tok(op['omega'])} 2 {ch} {op['data']}"
+        dim = op.get("dim", 2)
+        ch = int(np.prod(SHAPES[op["data"]][dim:])) if len(SHAPES[op["data"]]) > dim else 1
+        return f"h1 {sref} {coef_tok(op['mu'])} {coef_tok(op['omega'])} {dim} {ch} {op['data']}"
     if k in ("sb", "tvd"):
         ell = op["ell"] if op.get("ell") is not None else 2 * op["mu"]
         return f"sb {sref} {coef_tok(ell)} {coef_tok(op['omega'])} 2 {op['iters']} {op['data']}"
@@ -287,6 +300,7 @@ GROUPS = {
         dict(op="h1", solver="d", mu=2.0, omega=0.5, data=0),
         dict(op="h1", solver="d", mu=0.5, omega=1.0, data=2),
         dict(op="h1", solver="d", mu=1.0, omega=1.0, data=3),
+        dict(op="h1", solver="d", mu=0.5, omega=1.0, data=5, dim=3),
     ],
     "sb-default": [
         dict(op="sb", solver="d", mu=0.125, omega=1.0, ell=None, iters=3, data=0),
@@ -308,6 +322,7 @@ GROUPS = {
         dict(op="mu", i=0, diff=3.0),
         dict(op="mc", i=0, data=2),
         dict(op="h1", solver=["m", 0], mu=2.0, omega=1.0, data=0),
+        dict(op="h1", solver=["m", 0], mu=2.0, omega=1.0, data=5, dim=3),
     ],
     "mg-heterogeneous": [
         dict(op="mc", i=1, data=1),
@@ -395,6 +410,8 @@ def signature(op, prev):
     if k == "di":
         o = OBJECTS["ws"][op["i"]]
         via = f"({o['kind']},{o['solver']}/{o['formulation']})"
+    if prev == "solver-constructor-parameters":
+        return f"C16:{who}{via}:depends-on-solver-constructor-parameters"
     return f"C16:{who}{via}:depends-on-earlier-{prev}"
 
 
@@ -470,6 +487,13 @@ def _run(ctx, d, zyg):
                 continue
             ref_ops = [s for o in seq[:n] for s in setting_part(o)] + [op]
             keys.setdefault(json.dumps(ref_ops, sort_keys=True), ref_ops)
+    def explicit_regulariser(o):
+        return o["op"] in ("h1", "sb") and o["solver"] != "d"
+
+    for seq in seqs:
+        for op in seq:
+            if explicit_regulariser(op):
+                keys.setdefault("variant:" + json.dumps(op, sort_keys=True), {"variant": True, "ops": [op]})
     klist = list(keys)
     zyg.send(("fresh", [keys[k] for k in klist]))
     ref = dict(zip(klist, zyg.recv()))
@@ -530,6 +554,16 @@ def _run(ctx, d, zyg):
                 ctx.fail(signature(op, prev_class(seq, n)),
                          f"call {n} of the sequence returned {r}; the same call issued first in a fresh process (after the parameter settings only) returns {want}",
                          {"process_prefix": process_prefix(si, op), "sequence": seq, "call": n, "in_sequence": r, "fresh_process": want, "reference_ops": ref_ops})
+            if explicit_regulariser(op):
+                # theorem regulariser_stateless: equal to the call issued first in a fresh process on a solver object that was
+                # constructed with other dim / mass_coeff / diffusion_coeff (all three are overwritten by the call)
+                wantv = ref["variant:" + json.dumps(op, sort_keys=True)]
+                n_cmp += 1
+                if r != wantv and r == want:
+                    ctx.fail(signature(op, "solver-constructor-parameters"),
+                             f"call {n} returned {r}; the same call issued first in a fresh process with a solver object constructed with other dim / mass_coeff / "
+                             f"diffusion_coeff (which the call overwrites) returns {wantv}",
+                             {"sequence": seq, "call": n, "in_sequence": r, "fresh_process": wantv, "reference_ops": {"variant": True, "ops": [op]}})
         impl_eq.append(flags)
     ctx.cov["compared_calls"] = n_cmp
 
@@ -572,7 +606,7 @@ def _run(ctx, d, zyg):
         ctx.mark("CORR-BROKEN", {"correspondence": "stateful-sequences", "sequence": first[0], "impl_equal_to_fresh": first[1], "model": first[2], "n_diffs": ndiff})
         ctx.log(f"correspondence stateful-sequences: {ndiff} disagreements, e.g. {json.dumps(first[0])[:300]} impl={first[1]} model={first[2][:200]}")
 
-    ctx.cov["rule"] = ("sequences: quick = all of length <= 2 over the 28-operation alphabet + 1500 sampled triples + all of length <= 3 inside each group; thorough = all of "
+    ctx.cov["rule"] = ("sequences: quick = all of length <= 2 over the 30-operation alphabet + 1500 sampled triples + all of length <= 3 inside each group; thorough = all of "
                        "length <= 3 over the alphabet without split-Bregman calls + 2500 sampled triples with one such call + all of length <= 4 inside each "
                        "group sharing an object (default H1 solver, default split-Bregman solver, one Jacobi object, MG objects, Anderson objects); "
                        "both tiers: six distance objects (Newton/Bregman x direct-full/direct-pressure/amg-pressure) on 2 (quick) / 3 (thorough) successive pairs; EVERY call of every sequence is compared with "
